@@ -471,10 +471,28 @@ func evalThreshold(tc thresholdCase, n int, fillName string, fill func(int) []by
 	}
 	if pn := guard(func() {
 		for _, allow := range []bool{true, false} {
-			raw, err := network.NewMessage(tc.cmd, p).BytesCompressed(allow)
+			msg := network.NewMessage(tc.cmd, p)
+			raw, err := msg.BytesCompressed(allow)
 			if err != nil {
 				bad("message-does-not-encode", err.Error())
 				return
+			}
+			// the encoding is a function of the value: the same message object encoded
+			// again (same setting, then the other one) still gives messages a peer reads
+			for _, again := range []bool{allow, !allow} {
+				rawN, err := msg.BytesCompressed(again)
+				if err != nil {
+					bad("message-does-not-encode-again", err.Error())
+					break
+				}
+				if again == allow && !bytes.Equal(rawN, raw) {
+					bad("second-encoding-of-the-same-message-differs", fmt.Sprintf("allow=%v: %s.. then %s..", allow, hx(raw[:8]), hx(rawN[:8])))
+				}
+				if mN, err := decodeMsg(rawN, false); err != nil {
+					bad("second-encoding-of-the-same-message-rejected", fmt.Sprintf("first allow=%v, again allow=%v: %v", allow, again, err))
+				} else if bN, err := encS(mN.Payload); err != nil || !bytes.Equal(bN, pb) {
+					bad("payload-differs-after-the-second-encoding", fmt.Sprintf("first allow=%v, again allow=%v", allow, again))
+				}
 			}
 			compressed := raw[0]&byte(network.Compressed) != 0
 			if compressed && !allow {
